@@ -551,6 +551,17 @@ func (g *gen) regCompile(spec *Spec, inRunProbes bool) {
 	nt := g.k.Range(2, 4)
 	version := 0
 	exprs := 0
+	if g.k.Chance(1, 2) {
+		// warm registry: the names exist before the tasks start, so that
+		// overlapping registrations replace entries instead of adding them
+		for i, n := 0, g.k.Range(3, 7); i < n; i++ {
+			op := g.regOp(&version, true, "")
+			if op.Invalid != "" {
+				continue
+			}
+			spec.Warm = append(spec.Warm, op)
+		}
+	}
 	for t := 0; t < nt; t++ {
 		var ops []Op
 		registrar := t%2 == 0
